@@ -290,7 +290,9 @@ def run_config_sym(name, fn, kw, tier, seed, opts):
     h = H('sym', tier, seed)
     ex = Explorer(seed=seed, maxpaths=opts.get('maxpaths', 256 if tier == 'quick' else 4096),
                   scale=opts.get('scale', 1.0), feas_ms=opts.get('feas_ms', (3000, 20000)),
-                  follow_nominal=opts.get('follow_nominal', False))
+                  follow_nominal=opts.get('follow_nominal', False),
+                  # stop opening new paths at 60 % of the configuration's timeout (the last path still has to finish)
+                  time_budget=opts.get('budget', 0.6 * opts['timeout'] if opts.get('timeout') else None))
     h.ex = ex
     prof = _Profiler()
     t0 = time.time()
@@ -535,6 +537,12 @@ def main(prop, module, build_configs, meta):
         return 0
     names = [c['name'] for c in cfgs]
     assert len(set(names)) == len(names), 'duplicate configuration names'
+    # global per-configuration cap (sizing of the thorough tier: 25 min; a multi-path configuration stops opening new paths at 60 %
+    # of its timeout and reports what it covered, a single-path one that is still running is killed and listed as inconclusive)
+    cap = float(os.environ.get('VERIF_CFG_TIMEOUT_CAP', 1500 if tier == 'thorough' else 10 ** 9))
+    for c in cfgs:
+        o = c.setdefault('opts', {})
+        o['timeout'] = min(o.get('timeout', meta.get('config_timeout', {}).get(tier, 240 if tier == 'quick' else 1500)), cap)
     if a.float_selftest:
         from concurrent.futures import ProcessPoolExecutor
         bad = 0
@@ -586,6 +594,9 @@ def main(prop, module, build_configs, meta):
         smt2s.extend(r.get('smt2', []))
         if r['status'] in ('timeout', 'crashed'):
             inconclusive.append(dict(configuration=c['name'], reason=r['status']))
+        if r.get('stats', {}).get('bound_hit'):
+            inconclusive.append(dict(configuration=c['name'], reason='path / time bound reached after %d paths, %s prefixes left unexplored'
+                                     % (r['stats'].get('paths', 0), r['stats'].get('paths_left_on_the_stack', '?'))))
         if r['status'] == 'error':
             cand.append(dict(cfg=c, key='exception:' + r.get('error_type', '?'), env=r.get('error_env') or {}, kind='exception', res=r))
         seen_sat = set()
